@@ -115,6 +115,8 @@ reg("altcode", K + "altcode", dfin(0, 4, 16, 20), False)
 reg("allzeros", K + "allzeros", any_)
 reg(None, K + "data", any_, False)
 reg(None, K + "crc", any_, False)
+for n in ("fs", "dr", "um", "hex2bin", "hex2int", "is_icao_assigned"):
+    reg(None, K + n, any_, False)
 reg("infer0", "pyModeS.bds.infer", any_)
 reg("infer1", "pyModeS.bds.infer", any_, args=(True,))
 reg("tell", "h:props.C14.tell_quiet", any_, False)
